@@ -357,6 +357,9 @@ def generate(run_seed, tier_cfg):
         specs["s2"] = _cube_spec(rnd, "r0", "t0", scal)
         if rnd.random() < 0.5:
             specs["s3"] = _cube_spec(rnd, "r1", "t1", scal)
+        if rnd.random() < 0.5:
+            # one transforms dict for every member of the set ("the tab-book's default analysis")
+            specs["s4"] = {"type": "cubeset", "members": [["r0", "t1"], ["r1", "t1"], ["r2", "t1"]], **scal}
     elif topo == "T5filter":
         n = rnd.randint(3, 7)
         keep1 = sorted(rnd.sample(range(n), rnd.randint(1, n - 1)))
